@@ -30,6 +30,10 @@ type Script struct {
 	// FailCall: extension capability callbacks that return an error:
 	// "ready:<ext key>", "notready:<ext key>" (PipelineWatcher), "notifyconfig:<ext key>" (ConfigWatcher).
 	FailCall []string `json:"fail_call,omitempty"`
+	// ErrKinds: "<op>:<fault key>" (op = start | shutdown | ready | notready | notifyconfig) → shape of the
+	// error the component returns (topo.ErrKinds: plain, wrapping context.DeadlineExceeded /
+	// context.Canceled, joined with a second error, permanent wrapper).  Missing: plain.
+	ErrKinds map[string]string `json:"err_kinds,omitempty"`
 	// Collector: drive otelcol.Collector.Run with the rendered YAML instead of
 	// service.New/Start/Shutdown.
 	Collector bool `json:"collector,omitempty"`
@@ -140,6 +144,23 @@ func gen(collector bool) func(t *rapid.T) Script {
 		case "both":
 			s.FailStart = draw("fail-start")
 			s.FailStop = draw("fail-stop")
+		}
+		// every injected error gets a shape
+		var fk []string
+		for _, k := range s.FailStart {
+			fk = append(fk, "start:"+k)
+		}
+		for _, k := range s.FailStop {
+			fk = append(fk, "shutdown:"+k)
+		}
+		fk = append(fk, s.FailCall...)
+		for _, k := range fk {
+			if kind := rapid.SampledFrom(topo.ErrKinds).Draw(t, "err-kind"); kind != "plain" {
+				if s.ErrKinds == nil {
+					s.ErrKinds = map[string]string{}
+				}
+				s.ErrKinds[k] = kind
+			}
 		}
 		return s
 	}
@@ -270,7 +291,7 @@ func run(c *vt.C) func(s Script) (bool, string, *vt.Finding) {
 	return func(s Script) (bool, string, *vt.Finding) {
 		tp := s.Topo
 		plan := topo.Evaluate(tp)
-		key := fmt.Sprintf("%s\nFS %v\nFT %v\nFC %v\ncol=%v", tp.Canon(), s.FailStart, s.FailStop, s.FailCall, s.Collector)
+		key := fmt.Sprintf("%s\nFS %v\nFT %v\nFC %v\nEK %v\ncol=%v", tp.Canon(), s.FailStart, s.FailStop, s.FailCall, s.ErrKinds, s.Collector)
 		if plan.Class != "valid" {
 			return false, key, vt.Failf("harness/generator", "generated configuration is %s (%s)", plan.Class, plan.Reason)
 		}
@@ -283,6 +304,9 @@ func run(c *vt.C) func(s Script) (bool, string, *vt.Finding) {
 		}
 		for _, k := range s.FailCall {
 			w.FailCall[k] = true
+		}
+		for k, v := range s.ErrKinds {
+			w.ErrKind[k] = v
 		}
 		// identification pass: one tagged payload per receiver; the trails tell which processor instance
 		// (creation serial) sits in which pipeline
@@ -341,6 +365,15 @@ func classify(c *vt.C, s Script, plan *topo.Plan, h *history) {
 	}
 	for _, r := range h.raised {
 		c.Class(r.Op + "-failed:" + kindOf(r.Key))
+		kind := r.Kind
+		if kind == "" {
+			kind = "plain"
+		}
+		where := "extension"
+		if kindOf(r.Key) != "extension" {
+			where = "pipeline-component"
+		}
+		c.Class("error-kind:" + r.Op + "/" + where + "/" + kind)
 	}
 	ndeps := 0
 	for _, x := range s.Topo.Extensions {
